@@ -7,6 +7,7 @@ use std::collections::{BTreeMap, BTreeSet};
 use std::sync::Arc;
 use std::time::Duration;
 
+use alpenglow::disseminator::rotor::SamplingStrategy as _;
 use alpenglow::consensus::{AddShredError, Blockstore, BlockstoreEvent, BlockstoreImpl};
 use alpenglow::crypto::merkle::{BlockHash, DoubleMerkleTree};
 use alpenglow::disseminator::rotor::{FaitAccompli1Sampler, IidQuorumSampler, StakeWeightedSampler};
@@ -409,7 +410,20 @@ pub fn draw_block(slot: u64, max_slices: usize, malform: &Malform) -> Vec<Slice>
         }
         Malform::ParentNotEarlier => {
             let bad = slot + kernel::choose(G, 3);
-            if kernel::choose(G, 2) == 0 || slices.len() < 2 {
+            let sub = kernel::choose(G, 3);
+            if sub == 2 {
+                // a first parent that is not earlier, "repaired" by one otherwise legal switch
+                if slices.len() < 2 {
+                    slices[0].is_last = false;
+                    slices.push(Slice { slot: Slot::new(slot), slice_index: si(1), is_last: true, parent: None, data: txs(1, 9) });
+                }
+                slices[0].parent = Some((Slot::new(bad), wire::synth_hash(0, 5)));
+                for s in slices.iter_mut().skip(1) {
+                    s.parent = None;
+                }
+                let k = 1 + kernel::choose(G, (slices.len() - 1) as u64) as usize;
+                slices[k].parent = Some((Slot::new(kernel::choose(G, slot)), wire::synth_hash(0, 6)));
+            } else if sub == 0 || slices.len() < 2 {
                 slices[0].parent = Some((Slot::new(bad), wire::synth_hash(0, 5)));
                 for s in slices.iter_mut().skip(1) {
                     s.parent = None;
@@ -881,10 +895,13 @@ pub fn c12_run() -> WorldOutcome {
 // =============================================================================================
 // C16: independently constructed disseminator instances on a recording, loss-free network
 
-#[derive(Clone, Copy, Debug)]
+#[derive(Clone, Copy, Debug, PartialEq)]
 enum DKind {
     Trivial,
     Rotor,
+    /// `Rotor::new` switched to another sampler with `with_sampler`, some instances only after
+    /// they had already routed shreds of the block (their relay cache is warm at the switch)
+    RotorSwitched,
     RotorFa1,
     Turbine(usize),
 }
@@ -903,9 +920,10 @@ async fn node_loop<D: Disseminator>(d: Arc<D>, leader: usize, me: usize, receive
 pub fn c16_run(max_n: usize) -> WorldOutcome {
     let n = 2 + kernel::choose(G, (max_n - 1) as u64) as usize;
     let (stakes, stake_kind) = keys::draw_stakes(n, G);
-    let kind = match kernel::choose(G, 6) {
+    let kind = match kernel::choose(G, 7) {
         0 => DKind::Trivial,
         1 | 2 => DKind::Rotor,
+        6 => DKind::RotorSwitched,
         3 => DKind::RotorFa1,
         4 => DKind::Turbine(1 + kernel::choose(G, n as u64) as usize),
         _ => DKind::Turbine(200),
@@ -969,12 +987,42 @@ pub fn c16_run(max_n: usize) -> WorldOutcome {
                             let d: Rotor<_, IidQuorumSampler<StakeWeightedSampler>> = Rotor::new(dnet, ei);
                             start!(d)
                         }
+                        DKind::RotorSwitched => {
+                            let d: Rotor<_, IidQuorumSampler<StakeWeightedSampler>> = Rotor::new(dnet, ei);
+                            if kernel::choose(G, 2) == 1 {
+                                // this instance routes the block's shreds once under the old sampler
+                                for slice_shreds in &blk.shreds {
+                                    let _ = d.forward(slice_shreds[0].as_shred()).await;
+                                    let _ = d.forward(slice_shreds[TOTAL_SHREDS - 1].as_shred()).await;
+                                }
+                                kernel::fault("rotor_cache_warm_before_sampler_switch");
+                            }
+                            // everybody switches to the same new sampler (reversed stakes)
+                            let mut v2 = vals.clone();
+                            let nn = v2.len();
+                            for (k, v) in v2.iter_mut().enumerate() {
+                                v.stake = vals[nn - 1 - k].stake;
+                            }
+                            let d = d.with_sampler(StakeWeightedSampler::new(v2).into_quorum_strategy(TOTAL_SHREDS));
+                            start!(d)
+                        }
                         DKind::RotorFa1 => {
                             let d: Rotor<_, FaitAccompli1Sampler<_>> = Rotor::new_fa1(dnet, ei);
                             start!(d)
                         }
                         DKind::Turbine(f) => start!(Turbine::new(dnet, ei).with_fanout(f)),
                     }
+                }
+                if kind == DKind::RotorSwitched {
+                    // whatever the warm-up put on the wire is not part of the run that is judged
+                    for _ in 0..100 {
+                        tokio::time::sleep(Duration::from_millis(200)).await;
+                        if net.lock().unwrap().queue_len() == 0 {
+                            break;
+                        }
+                    }
+                    net.lock().unwrap().taps.clear();
+                    received.lock().unwrap().clear();
                 }
                 // warm some caches in a sampled call order before the real block (other slots)
                 let send = leader_send.take().expect("leader instance");
@@ -1040,7 +1088,7 @@ pub fn c16_run(max_n: usize) -> WorldOutcome {
                         break;
                     }
                 }
-                if matches!(kind, DKind::Rotor | DKind::RotorFa1) {
+                if matches!(kind, DKind::Rotor | DKind::RotorSwitched | DKind::RotorFa1) {
                     // every transmission except the leader's initial unicast is a relay broadcast
                     let from_leader = sends.iter().filter(|(f, _)| *f == leader).count();
                     let relay_broadcasts = sends.len() - from_leader + from_leader.saturating_sub(1);
@@ -1069,6 +1117,7 @@ fn kind_name(k: DKind) -> &'static str {
     match k {
         DKind::Trivial => "trivial",
         DKind::Rotor => "rotor",
+        DKind::RotorSwitched => "rotor_switched",
         DKind::RotorFa1 => "rotor_fa1",
         DKind::Turbine(_) => "turbine",
     }
